@@ -187,6 +187,7 @@ func VerifC16_Join(cf, kekAS, kekNS int) {
 	} else {
 		c16KeyEq(ans.NwkSKey, r.nsLabel, r.nsKEK, fNwk, "NwkSKey", "", false)
 	}
+	verifNoGlobalWritesExcept("") // C10: no hidden package-level state is written
 	verifReach("success")
 }
 
@@ -243,5 +244,6 @@ func VerifC16_Rejoin(typ, cf, kekAS, kekNS int) {
 	c16KeyEq(ans.FNwkSIntKey, r.nsLabel, r.nsKEK, fNwk, "FNwkSIntKey", id, true)
 	c16KeyEq(ans.SNwkSIntKey, r.nsLabel, r.nsKEK, sNwk, "SNwkSIntKey", id, true)
 	c16KeyEq(ans.NwkSEncKey, r.nsLabel, r.nsKEK, nwkEnc, "NwkSEncKey", id, true)
+	verifNoGlobalWritesExcept("") // C10: no hidden package-level state is written
 	verifReach("success")
 }
